@@ -9,6 +9,20 @@
 //   out <hex>      (compared with the writer model byte for byte, judged by the oracle)
 //   outp <hex>     for a `-p` run (every test in its own process: judged by the oracle only)
 //   crash realio-child <what>   when the grand-child dies
+//
+// Two more definition lines for the `-p` runs of the real-I/O sub-mode (they belong to the latest `test`):
+//   childstop      the forked process of this test stops itself (SIGSTOP) at the start of the test body; once the runner has
+//                  continued it, it waits 100 ms and goes on with the body.  Only in a forked test process of a `-p` run;
+//                  everywhere else the line has no effect.
+//   slow <ms>      the test body really sleeps <ms> milliseconds first (real-I/O sub-mode only; <ms> <= 2000)
+//
+// Composite sub-mode (`composite <1|2>` before `run`, not with realio): the registry is run with a CompositeTestOutput whose
+// outputOne_ (1) / outputTwo_ (2) is the TeamCityTestOutput writing to stdout and whose other output is a ConsoleTestOutput
+// that writes into a private sink (not stdout).  What reaches stdout is reported as `out <hex>` and must be the stream of a
+// TeamCityTestOutput used directly: CompositeTestOutput forwards every callback; printTestRun, which it does not override,
+// reaches both outputs through print().  `sink <n>` = 1 when the other output received anything at all.
+#include <signal.h>
+#include <unistd.h>
 #include "h_c16_util.h"
 #include "CppUTest/TeamCityTestOutput.h"
 #include "CppUTest/CommandLineTestRunner.h"
@@ -25,13 +39,88 @@ void no_flush() {}
 void (*g_real_fputs)(const char*, PlatformSpecificFile) = 0;
 void (*g_real_flush)() = 0;
 
+// the second output of the composite: a console output whose bytes do not go to stdout
+class SinkOutput : public ConsoleTestOutput {
+public:
+    explicit SinkOutput(std::string* d) : data_(d) {}
+    void printBuffer(const char* s) CPPUTEST_OVERRIDE { *data_ += s; }
+    void flush() CPPUTEST_OVERRIDE {}
+private:
+    std::string* data_;
+};
+
+void run_composite(const vo::Registry& reg, int position) {
+    std::string sink;
+    g_stream.clear();
+    {
+        CompositeTestOutput comp;                     // owns and deletes its two outputs
+        TestOutput* tc = new TeamCityTestOutput;
+        TestOutput* other = new SinkOutput(&sink);
+        if (position == 1) { comp.setOutputOne(tc); comp.setOutputTwo(other); }
+        else { comp.setOutputOne(other); comp.setOutputTwo(tc); }
+        vo::run_registry(reg, comp);
+    }
+    vh::emit("out %s", vh::hex(g_stream).c_str());
+    vh::emit("sink %d", sink.empty() ? 0 : 1);
+}
+
+// ---- scripted tests whose process stops itself / that are really slow (`childstop`, `slow`)
+std::map<size_t, bool> g_stop;          // script index -> stops itself
+std::map<size_t, unsigned> g_slow;      // script index -> milliseconds
+pid_t g_runner_pid = 0;                 // the process running the registry in a `-p` run (0 = not such a run)
+
+class StopUtest : public Utest {
+public:
+    StopUtest(const vo::Script* s, bool stop, unsigned slow_ms) : s_(s), stop_(stop), slow_ms_(slow_ms) {}
+    void testBody() CPPUTEST_OVERRIDE {
+        if (stop_ && g_runner_pid != 0 && getpid() != g_runner_pid) {
+            kill(getpid(), SIGSTOP);            // reported to the runner by waitpid(.., WUNTRACED); the runner sends SIGCONT
+            usleep(100 * 1000);
+        }
+        if (slow_ms_) usleep(slow_ms_ * 1000);
+        vo::run_actions(s_->acts);
+    }
+private:
+    const vo::Script* s_; bool stop_; unsigned slow_ms_;
+};
+
+class StopShell : public UtestShell {
+public:
+    StopShell(const vo::Script* s, bool stop, unsigned slow_ms)
+        : UtestShell(s->group.c_str(), s->name.c_str(), s->file.c_str(), s->line), s_(s), stop_(stop), slow_ms_(slow_ms) {}
+    Utest* createTest() CPPUTEST_OVERRIDE { return new StopUtest(s_, stop_, slow_ms_); }
+private:
+    const vo::Script* s_; bool stop_; unsigned slow_ms_;
+};
+
+// vo::Built with StopShell for the marked scripts
+struct Built20 {
+    std::vector<UtestShell*> shells;
+    TestRegistry reg;
+    vo::ScriptedPlugin plugin;
+    explicit Built20(const vo::Registry& r) {
+        for (size_t i = 0; i < r.scripts.size(); i++) {
+            const vo::Script* s = &r.scripts[i];
+            bool stop = g_stop.count(i) != 0;
+            unsigned slow = g_slow.count(i) ? g_slow[i] : 0;
+            if (s->ignored) shells.push_back(new vo::ScriptedIgnoredShell(s));
+            else if (stop || slow) shells.push_back(new StopShell(s, stop, slow));
+            else shells.push_back(new vo::ScriptedShell(s));
+        }
+        for (size_t i = shells.size(); i > 0; i--) reg.addTest(shells[i - 1]);
+        for (size_t i = 0; i < shells.size(); i++) plugin.scripts[shells[i]] = &r.scripts[i];
+        reg.installPlugin(&plugin);
+    }
+    ~Built20() { for (size_t i = 0; i < shells.size(); i++) delete shells[i]; }
+};
+
 void run_real_io(const vo::Registry& reg) {
     fflush(stdout); fflush(stderr);
     int fd[2];
     if (pipe(fd) != 0) { vh::emit("crash realio-child no-pipe"); return; }
     pid_t pid = fork();
     if (pid == 0) {
-        alarm(30);
+        alarm(90);          // generous: on a heavily loaded machine a -p run with a 20 KB message takes tens of seconds
         close(fd[0]);
         dup2(fd[1], 1);
         close(fd[1]);
@@ -39,9 +128,10 @@ void run_real_io(const vo::Registry& reg) {
         PlatformSpecificFPuts = g_real_fputs;
         PlatformSpecificFlush = g_real_flush;
         vo::stub_clock();
+        if (reg.separate) g_runner_pid = getpid();
         int rc;
         {
-            vo::Built b(reg);
+            Built20 b(reg);
             b.reg.setCurrentRegistry(&b.reg);
             std::vector<std::string> args;
             args.push_back("h_c20");
@@ -77,6 +167,8 @@ void run_real_io(const vo::Registry& reg) {
 
 void run_case(const vh::Case& c) {
     vo::Registry reg;
+    int composite = 0;
+    g_stop.clear(); g_slow.clear();
     if (!g_real_fputs) { g_real_fputs = PlatformSpecificFPuts; g_real_flush = PlatformSpecificFlush; }
     PlatformSpecificFPuts = capture_fputs;
     PlatformSpecificFlush = no_flush;
@@ -85,6 +177,7 @@ void run_case(const vh::Case& c) {
         if (w[0] == "run" && w.size() == 1) {
             vh::emit_op("run");
             if (reg.realio) { run_real_io(reg); continue; }
+            if (composite) { run_composite(reg, composite); continue; }
             g_stream.clear();
             {
                 TeamCityTestOutput out;
@@ -92,6 +185,15 @@ void run_case(const vh::Case& c) {
             }
             vh::emit("out %s", vh::hex(g_stream).c_str());
         }
+        else if (w[0] == "childstop" && w.size() == 1) {
+            if (!reg.scripts.empty()) g_stop[reg.scripts.size() - 1] = true;
+            vh::emit_op("childstop");
+        }
+        else if (w[0] == "slow" && w.size() == 2 && vo::is_number(w[1]) && vh::to_u64(w[1]) <= 2000) {
+            if (!reg.scripts.empty()) g_slow[reg.scripts.size() - 1] = (unsigned) vh::to_u64(w[1]);
+            vh::emit_op(vo::join(w));
+        }
+        else if (w[0] == "composite" && w.size() == 2 && (w[1] == "1" || w[1] == "2")) { composite = w[1][0] - '0'; vh::emit_op(vo::join(w)); }
         else if (vo::apply_op(reg, w)) vh::emit_op(vo::join(w));
         else vh::emit("> skip");
     }
@@ -99,4 +201,4 @@ void run_case(const vh::Case& c) {
 
 } // namespace
 
-int main() { return vh::run_all(run_case); }
+int main() { return vh::run_all(run_case, 120); }
